@@ -199,17 +199,26 @@ class Gfa(Lines,GraphOperations,RGFA):
     Parameters:
       filename (str)
     """
+    def text_lines(f):
+      # the lines of the file; content which is not text is a format error
+      try:
+        for line in f:
+          yield line
+      except UnicodeDecodeError as err:
+        raise gfapy.FormatError(
+          "The file {} cannot be read as text\n".format(filename)+
+          "{}".format(err)) from err
     if self._progress:
       linecount = 0
       with open(filename) as f:
-        for line in f:
+        for line in text_lines(f):
           linecount += 1
       # TODO: better implementation of linecount
       self._progress_log_init("read_file", "lines", linecount,
                               "Parsing file {}".format(filename)+
                               " containing {} lines".format(linecount))
     with open(filename) as f:
-      for line in f:
+      for line in text_lines(f):
         self.add_line(line.rstrip('\r\n'))
         if self._progress:
           self._progress_log("read_file")
